@@ -184,6 +184,28 @@ def params_of(name, mx, ct, mr, tsf, mid, payload, aborts):
     return (name, mx, ct, mr, tsf, mid, payload, aborts)
 
 
+def _interleaved_concrete(sched, mxa, a_ct, a_tsf, b_aborts, b_ct, b_mr):
+    mida, midb, pa, pb = 100, 200, b'\x11', b'\x26'        # distinct per association, concrete
+    pa_ = params_of('CLIENT_A', mxa, a_ct, False, 1 if a_tsf else 0, mida, pa, False)
+    pb_ = params_of('CLIENT_B', 4096, b_ct, b_mr, 0, midb, pb, b_aborts)
+    alone_a, log_a = run_alone(pa_)
+    alone_b, log_b = run_alone(pb_)
+    ae = Entity()
+    ca, cb = Client(*pa_), Client(*pb_)
+    bit = 0
+    while not (ca.done and cb.done):
+        pick_b = (sched >> (bit % 8)) & 1
+        bit += 1
+        c = cb if (pick_b and not cb.done) or ca.done else ca
+        c.step(ae)
+    ok = ca.trace() == alone_a and cb.trace() == alone_b
+    # every handler call belongs to exactly one association and is the one that association causes alone
+    ok = ok and len(ae.log) == len(log_a) + len(log_b)
+    for e in log_a + log_b:
+        ok = ok and e in ae.log
+    return ok, len(ae.log)
+
+
 @cond(bounds='two associations on one entity: each with its own requested maximum length (A: 7 / 16384 / 2^32-1 by symbolic choice, B: 4096), '
              'accepted-context subset (CT / MR storage proposed or not: symbolic), transfer-syntax order (symbolic), '
              'own message ids and payload; B may abort after its first message '
@@ -200,25 +222,10 @@ def interleaved(mxi: int, a_ct: bool, a_tsf: bool, b_aborts: bool) -> bool:
     sched = fam('sched')
     mxa = (7, 16384, 0xFFFFFFFF)[pick(mxi, 0, 2)]
     a_ct, a_tsf, b_aborts = bool(pick(int(a_ct), 0, 1)), bool(pick(int(a_tsf), 0, 1)), bool(pick(int(b_aborts), 0, 1))
-    mida, midb, pa, pb = 100, 200, b'\x11', b'\x26'        # distinct per association, concrete
-    pa_ = params_of('CLIENT_A', mxa, a_ct, False, 1 if a_tsf else 0, mida, pa, False)
-    pb_ = params_of('CLIENT_B', 4096, bool(fam('b_ct')), bool(fam('b_mr')), 0, midb, pb, b_aborts)
-    alone_a, log_a = run_alone(pa_)
-    alone_b, log_b = run_alone(pb_)
-    ae = Entity()
-    ca, cb = Client(*pa_), Client(*pb_)
-    bit = 0
-    while not (ca.done and cb.done):
-        pick_b = (sched >> (bit % 8)) & 1
-        bit += 1
-        c = cb if (pick_b and not cb.done) or ca.done else ca
-        c.step(ae)
-    ok = ca.trace() == alone_a and cb.trace() == alone_b
-    # every handler call belongs to exactly one association and is the one that association causes alone
-    ok = ok and len(ae.log) == len(log_a) + len(log_b)
-    for e in log_a + log_b:
-        ok = ok and e in ae.log
-    deep(ok and a_ct and b_aborts and len(ae.log) >= 3)
+    from vt import sim
+    with sim._no_tracing():                 # concrete from here on (the solver chose the parameters)
+        ok, nlog = _interleaved_concrete(sched, mxa, a_ct, a_tsf, b_aborts, bool(fam('b_ct')), bool(fam('b_mr')))
+    deep(ok and a_ct and b_aborts and nlog >= 3)
     return ok
 
 
